@@ -719,3 +719,13 @@ package rac
 //@   prop C14
 //@   trusted concurrent code path (goroutines, channels): not verified; assumed to touch only the concReader
 //@   modifies *c
+
+// putU64LE is the writer-side inverse of u64LE: the eight bytes written are v's
+// little-endian bytes (so the reader's u64LE of them is v), nothing else is written.
+//@ func putU64LE
+//@   prop C13
+//@   mode bv
+//@   requires len(b) >= 8
+//@   ensures b[0] == byte(v) && b[1] == byte(v >> 8) && b[2] == byte(v >> 16) && b[3] == byte(v >> 24) && b[4] == byte(v >> 32) && b[5] == byte(v >> 40) && b[6] == byte(v >> 48) && b[7] == byte(v >> 56)
+//@   ensures[roundtrip] math(u48(b)) + math(b[6])*281474976710656 + math(b[7])*72057594037927936 == math(v)
+//@   modifies mem(b)
